@@ -252,17 +252,25 @@ func c07Faults(r *SeqResult, stream bool) {
 				var n int64
 				var err error
 				var sw *scriptWriter
-				if stream {
-					w := &scriptStreamWriter{scriptWriter{script: sc}}
-					sw = &w.scriptWriter
-					var nn int
-					nn, err = m.WriteToStreamWithRetry(w, 5, retries)
-					n = int64(nn)
-				} else {
-					w := &scriptWriter{script: sc}
-					sw = w
-					n, err = m.WriteToWithRetry(w, retries)
-				}
+				panicked := ""
+				func() {
+					defer func() {
+						if p := recover(); p != nil {
+							panicked = fmt.Sprint(p)
+						}
+					}()
+					if stream {
+						w := &scriptStreamWriter{scriptWriter{script: sc}}
+						sw = &w.scriptWriter
+						var nn int
+						nn, err = m.WriteToStreamWithRetry(w, 5, retries)
+						n = int64(nn)
+					} else {
+						w := &scriptWriter{script: sc}
+						sw = w
+						n, err = m.WriteToWithRetry(w, retries)
+					}
+				}()
 				r.Cases++
 				key := fmt.Sprintf("%d/%d/%v", size, retries, sc)
 				if !seen[key] {
@@ -272,7 +280,12 @@ func c07Faults(r *SeqResult, stream bool) {
 				if r.Sample == "" && len(sc) == 2 {
 					r.Sample = fmt.Sprintf("size=%d retries=%d script(K,Kind)=%v -> n=%d err=%v, %d calls", size, retries, sc, n, err, sw.calls)
 				}
-				v := c07FaultOracle(want, sc, int(retries), n, err, sw)
+				v := ""
+				if panicked != "" {
+					v = "PANIC in the retry loop: " + panicked
+				} else {
+					v = c07FaultOracle(want, sc, int(retries), n, err, sw)
+				}
 				if v != "" && r.Violation == "" {
 					r.Violation = fmt.Sprintf("%s (message of %d bytes, retries=%d, write outcomes (K,Kind)=%v; K indexes {0,1,n/2,n-1,n} bytes accepted, Kind 0 nil 1 temporary 2 permanent)", v, len(want), retries, sc)
 					r.Case = map[string]interface{}{"size": size, "retries": retries, "script": sc, "stream": stream}
